@@ -4,7 +4,7 @@ From PyUbx Require Import Base Bytes Fletcher Frame Types Strs Walk Consts Table
    `translated` lists the functions the translator could handle on this run; for a function that is not in it the
    statement is empty and the tie is the correspondence check alone (the harness reports which). *)
 From Coq Require Import ZArith List String.
-From PyUbx Require Import Strs PyMini PySrc Src_common Src_selectors.
+From PyUbx Require Import Strs PyMini PySrc Src_common Src_selectors Src_getdict.
 
 (* every row of VARIANTS: the source's selector function, called the way _get_dict calls it (with (msg, mode) for
    class 0x13, keywords only otherwise; KeyError turned into UBXMessageError), returns for EVERY keyword set /
@@ -12,3 +12,25 @@ From PyUbx Require Import Strs PyMini PySrc Src_common Src_selectors.
 Theorem C02_selectors_from_source : Forall agree_entry variants.
 Proof. exact selectors_agree. Qed.
 Print Assumptions C02_selectors_from_source.
+
+(* _get_dict as the source has it now (the VARIANTS lookup, the class-0x13 calling convention, the three table
+   lookups by identity, the NOMINAL test, `except KeyError`) is the model's get_dict — for every class, id, mode,
+   keyword set and payload whose identity string is ASCII (every name in the tables is: the translator refuses
+   others; the NOMINAL name is class name + hex digits), provided every selector VARIANTS names was translated *)
+Theorem C02_get_dict_from_source : mem_s "py_get_dict" translated = true ->
+  forallb (fun v => mem_s (snd v) py_selectors) variants = true ->
+  forall cls id mode k pay,
+  mode_ok mode = true ->
+  forallb (fun c => (c <? 128)%N) (bytes_of_string (identity cls id (Some pay))) = true ->
+  to_def (py_get_dict (gint (Z.of_N mode)) (gbytes cls) (gbytes id) (gstr (identity cls id (Some pay))) k)
+  = get_dict cls id mode k pay.
+Proof. exact get_dict_agree. Qed.
+Print Assumptions C02_get_dict_from_source.
+
+(* the premises are met: NAV-PVT (plain lookup), MGA-GPS-EPH (selector called with msg and mode), an unknown id *)
+Example C02_get_dict_premises :
+  forallb (fun v => mem_s (snd v) py_selectors) variants = true /\
+  forallb (fun c => (c <? 128)%N) (bytes_of_string (identity [1%N] [7%N] (Some []))) = true /\
+  forallb (fun c => (c <? 128)%N) (bytes_of_string (identity [19%N] [0%N] (Some [1%N]))) = true /\
+  forallb (fun c => (c <? 128)%N) (bytes_of_string (identity [119%N] [3%N] (Some []))) = true.
+Proof. vm_compute. repeat split. Qed.
